@@ -289,14 +289,14 @@ func ToCommandLine(wf WireFormat, resolveIds bool) (rule string, err error) {
 					rhs = strconv.Itoa(exitCode)
 				}
 			case uidField, euidField, suidField, fsuidField, auidField, objectUIDField:
-				rhs = strconv.Itoa(int(int32(value)))
+				rhs = formatID(value)
 				if resolveIds {
 					if user, err := user.LookupId(rhs); err == nil {
 						rhs = user.Username
 					}
 				}
 			case gidField, egidField, sgidField, fsgidField, objectGIDField:
-				rhs = strconv.Itoa(int(int32(value)))
+				rhs = formatID(value)
 				if resolveIds {
 					if group, err := user.LookupGroupId(rhs); err == nil {
 						rhs = group.Name
@@ -324,6 +324,16 @@ func ToCommandLine(wf WireFormat, resolveIds bool) (rule string, err error) {
 	}
 
 	return strings.Join(arguments, " "), nil
+}
+
+// formatID prints a uid or gid the way Build reads it back: the unset ID
+// (4294967295) as -1, like auditctl does, and every other value as an
+// unsigned number.
+func formatID(value uint32) string {
+	if value == math.MaxUint32 {
+		return "-1"
+	}
+	return strconv.FormatUint(uint64(value), 10)
 }
 
 func addFileWatch(data *ruleData, rule *FileWatchRule) error {
@@ -823,6 +833,10 @@ func getUID(uid string) (uint32, error) {
 }
 
 func getGID(gid string) (uint32, error) {
+	if gid == "unset" || gid == "-1" {
+		return 4294967295, nil
+	}
+
 	v, err := strconv.ParseUint(gid, 10, 32)
 	if err != nil {
 		if !errors.Is(err, strconv.ErrSyntax) {
